@@ -60,8 +60,8 @@ Lemma src_checkable_notification_reason_applies_nf : src_checkable_notification_
 Proof.
   intro Hrec; xl_rec Hrec.
   all: intros x ty is_host cr_state Hok; unfold src_checkable_notification_reason_applies, nf_reason_applies.
-  all: rewrite Hok; generalize (src_checkable_is_state_ok is_host cr_state); intro b.
-  all: destruct ty; vm_compute; destruct (cx_has_cr x), b, (cx_flapping x); reflexivity.
+  all: rewrite Hok; generalize (src_checkable_is_state_ok is_host cr_state) (cx_has_cr x) (cx_flapping x); intros b h fl.
+  all: destruct ty, h, b, fl; reflexivity.
 Qed.
 
 Lemma src_checkable_notification_reason_suppressed_nf : src_checkable_notification_reason_suppressed_recognised = true ->
@@ -71,5 +71,6 @@ Lemma src_checkable_notification_reason_suppressed_nf : src_checkable_notificati
 Proof.
   intro Hrec; xl_rec Hrec.
   all: intros x ty; unfold src_checkable_notification_reason_suppressed, nf_reason_suppressed.
-  all: destruct ty; vm_compute; destruct (cx_reachable x), (cx_downtime x), (cx_acked x); reflexivity.
+  all: generalize (cx_reachable x) (cx_downtime x) (cx_acked x); intros r d a.
+  all: destruct ty, r, d, a; reflexivity.
 Qed.
